@@ -35,5 +35,6 @@ PaysQ == { <<"|">>, <<"&">>, <<";","x">>, <<"#","c">>, <<"a",">","b">>, <<"<","f
            <<"x",";">>, <<"a","|","b">>, <<"2",">","f","9">>, <<"&",">","f","9">>, <<"<">>, <<"<","<","<">>,
            \* produced text that looks like another expansion: it is data too (no command runs, no list is made of it)
            <<"$","(","v","m","k"," ","9"," ","0",")">>, <<"`","v","m","k"," ","9"," ","0","`">>, <<"x","$","(","v","m","k"," ","9"," ","0",")","y">>,
-           <<"{","a",",","b","}">>, <<"x","{","1",".",".","3","}">> }
+           <<"{","a",",","b","}">>, <<"x","{","1",".",".","3","}">>,
+           <<"a",">","{","x",",","y","}">>, <<"`","v","m","k"," ","9"," ","0","`",">","f","9">> }      \* an operator AND expansion-like text in one value
 =============================================================================
